@@ -734,11 +734,13 @@ class Psse3W(Part):
     nproc = 8
 
     VAR = [dict(), dict(windv=(1.03, 0.97, 1.0)), dict(ang=(0.0, 3.0, -2.0)), dict(sbase=50.0),
-           dict(cz=2, sb=(250.0, 80.0, 120.0)), dict(mag=(0.002, -0.03)), dict(windv=(1.03, 0.97, 1.0), sbase=50.0)]
+           dict(cz=2, sb=(250.0, 80.0, 120.0)), dict(mag=(0.002, -0.03)), dict(windv=(1.03, 0.97, 1.0), sbase=50.0),
+           # STAT codes of the record: 0 all out, 2 / 3 / 4 = only winding 2 / 3 / 1 out of service
+           dict(stat=0), dict(stat=2), dict(stat=3), dict(stat=4), dict(stat=2, mag=(0.002, -0.03))]
 
     def describe(self, tier):
         return ('triangle network + one three-winding transformer (1-2-3): variants plain, off-nominal winding ratios, winding '
-                'angles, system base 50 MVA, CZ=2 with three different winding-pair bases, magnetising admittance, ratios + base; '
+                'angles, system base 50 MVA, CZ=2 with three different winding-pair bases, magnetising admittance, ratios + base, status codes 0 / 2 / 3 / 4; '
                 'generated RAW v33 -> System; power-flow voltages at the original buses against the star equivalent solved by '
                 'the independent network model')
 
@@ -757,7 +759,7 @@ class Psse3W(Part):
         spec = spec_of(dict(edges=[(0, 1), (0, 2), (1, 2)], dev=case['dev']))
         z12, z23, z31 = 0.01 + 0.12j, 0.008 + 0.09j, 0.012 + 0.2j           # pu on the system base
         xf3 = dict(buses=(1, 2, 3), z12=z12, z23=z23, z31=z31, windv=v.get('windv', (1.0, 1.0, 1.0)), ang=v.get('ang', (0.0, 0.0, 0.0)),
-                   mag=v.get('mag', (0.0, 0.0)), cz=v.get('cz', 1))
+                   mag=v.get('mag', (0.0, 0.0)), cz=v.get('cz', 1), stat=v.get('stat', 1))
         base = float(v.get('sbase', 100.0))
         if 'sb' in v:
             xf3['sb'] = v['sb']
@@ -784,11 +786,16 @@ class Psse3W(Part):
         for ln in rspec['Line']:
             ln['Sn'] = base              # the RAW text carries the spec's per-unit numbers on the case base
         star = 99
-        rspec['Bus'].append(dict(idx=star, name='STAR', Vn=1.0, vmax=1.6, vmin=0.4))
+        if xf3['stat'] != 0:          # with the whole transformer out of service the star point is not part of the network
+            rspec['Bus'].append(dict(idx=star, name='STAR', Vn=1.0, vmax=1.6, vmin=0.4))
         zs = [(z12 + z31 - z23) / 2, (z12 + z23 - z31) / 2, (z23 + z31 - z12) / 2]
         kv = {b['idx']: b['Vn'] for b in spec['Bus']}
         for n_, (b, z, w, a) in enumerate(zip((1, 2, 3), zs, xf3['windv'], xf3['ang'])):
             ln = dict(idx=f'W{n_}', bus1=b, bus2=star, r=z.real, x=z.imag, tap=w, phi=math.radians(a), Vn1=kv[b], Vn2=1.0, Sn=base)
+            out_of_service = {0: (0, 1, 2), 1: (), 2: (1,), 3: (2,), 4: (0,)}[xf3['stat']]
+            ln['u'] = 0 if n_ in out_of_service else 1
+            if xf3['stat'] == 0:
+                continue
             if n_ == 0 and any(xf3['mag']):
                 ln['g1'], ln['b1'] = xf3['mag']           # magnetising admittance sits at the winding-1 bus
             rspec['Line'].append(ln)
